@@ -30,12 +30,16 @@ type Pipeline struct {
 	Stages  []Stage `json:"stages"`
 	Reducer string  `json:"reducer"`
 	N       int     `json:"n,omitempty"`
+	// LibSrc: the pipeline is built on the library's own constructors (iterator.Slice, stream.FromIterator over
+	// it) instead of the recording doubles - implementations may know more about their own types than about a
+	// stranger's (a size hint, a fast path)
+	LibSrc bool `json:"lib_src,omitempty"`
 }
 
 var stageOps = []string{"Map", "Filter", "First", "While", "Compact", "ChunkFlatten", "Join", "RunsFlatten", "WithPeek"}
 
 func genPipeline(t *rapid.T) Pipeline {
-	p := Pipeline{Input: genInput(t, "in", 30)}
+	p := Pipeline{Input: genInput(t, "in", 30), LibSrc: rapid.IntRange(0, 2).Draw(t, "libsrc") == 0}
 	depth := rapid.IntRange(1, 4).Draw(t, "depth")
 	for i := 0; i < depth; i++ {
 		s := Stage{Op: rapid.SampledFrom(stageOps).Draw(t, "stage")}
@@ -225,11 +229,17 @@ func runPipeline(p Pipeline) (vk.Outcome, error) {
 	}
 	src := sk.NewRecIter(p.Input)
 	var it iterator.Iterator[int] = src
+	if p.LibSrc {
+		it = iterator.Slice(append([]int{}, p.Input...))
+	}
 	for _, s := range p.Stages {
 		it = iterStage(s, it)
 	}
 	ssrc := sk.NewRecStream("src", p.Input)
 	var st stream.Stream[int] = ssrc
+	if p.LibSrc {
+		st = stream.FromIterator(iterator.Slice(append([]int{}, p.Input...)))
+	}
 	for _, s := range p.Stages {
 		st = streamStage(s, st)
 	}
